@@ -286,3 +286,8 @@ func (r *Raft) VerifLeaderDump() VerifLeaderState {
 	s.TransferInProgress = r.getLeadershipTransferInProgress()
 	return s
 }
+
+// VerifRunFollower runs the follower loop on the calling goroutine, exactly as
+// run() does for a server whose state is Follower; it returns when the state
+// changes or the server is shut down.
+func (r *Raft) VerifRunFollower() { r.runFollower() }
